@@ -148,6 +148,21 @@ CHECKS = {
                      'back, and every message written by real sessions, is walked by a decoder-independent structural walker (lengths nest '
                      'exactly, flag categories, extended-length bit, ceil(len/8) prefixes, <= 4096 octets).',
                 ref='7 C08', note=E3_NOTE),
+    'C09': dict(level='exploration', engine='E3',
+                technique='small-scope exhaustive enumeration: an independent RFC encoder with every legal encoding variant switched on, decoded by the agent; single-field corruptions for the error half',
+                text='Every case of the C06 / C07 pools is encoded by the reference encoder plain and with each variant alone (extended-length '
+                     'flag, trailing prefix bits, attribute order, split AS_PATH, other AS width, add-path identifiers, AS4_PATH / '
+                     'AS4_AGGREGATOR), all switch combinations x all permutations of 5 attributes on representative messages; the agent must '
+                     'decode exactly the encoded values with no error. Error half: every listed single-field malformation must yield an '
+                     'error and no value for the corrupted attribute, also through dataReceived.',
+                ref='7 C09', note=E3_NOTE),
+    'C15': dict(level='exploration', engine='E3',
+                technique='exhaustive pair / triple enumeration over per-kind element pools with a purely differential oracle D(a||b) == D(a) ++ D(b)',
+                text='For 29 list kinds (prefix lists, labeled / VPN / EVPN routes, flowspec rules, communities, cluster ids, AS_PATH segments, OPEN '
+                     'capabilities in both packagings, BGP-LS NLRIs / descriptors / node sub-TLVs / attribute TLVs, Prefix-SID TLVs) all ordered '
+                     'pairs of well-formed element encodings covering every element width, triples for small pools and a || unknown || b for the '
+                     'TLV kinds; plus all orders of every <= 5-subset of a 13-attribute UPDATE. No reference decoder is involved.',
+                ref='7 C15', note=E3_NOTE),
 }
 
 NOT_YET = 'check not built yet in this session (see DESIGN.md section 7 for the plan); not claimed'
